@@ -412,6 +412,8 @@ def run_impl_(case):
     if k == "hatvee":
         v = arr(case["v"], case)
         h = lie.hat(v)
+        # results must not alias across calls: a second call with other data while the first result is still held
+        lie.hat(np.array([7.0, -8.0, 9.0]))
         hv = arr(L(h), case)
         if isinstance(hv, list):
             hv = np.array(hv)        # vee indexes m[i, j]: nested lists are not accepted
@@ -419,9 +421,13 @@ def run_impl_(case):
     if k == "se3":
         a, b = arr(case["a"], case), arr(case["b"], case)
         a0, b0 = np.array(a, dtype=float), np.array(b, dtype=float)
-        out = {"se3": L(lie.se3(a[:3, :3], a[:3, 3])), "inv": L(lie.se3_inverse(a)),
-               "rel": L(lie.relative_se3(a, b)), "rel_self": L(lie.relative_se3(a, a)),
-               "relso3": L(lie.relative_so3(a[:3, :3], b[:3, :3])), "so3": L(lie.so3_from_se3(a)),
+        held = {"se3": lie.se3(a[:3, :3], a[:3, 3]), "inv": lie.se3_inverse(a), "rel": lie.relative_se3(a, b),
+                "rel_self": lie.relative_se3(a, a), "relso3": lie.relative_so3(a[:3, :3], b[:3, :3])}
+        # every result is held while the same functions run again on other data (b, a swapped): results must not alias
+        lie.se3(b[:3, :3], b[:3, 3]), lie.se3_inverse(b), lie.relative_se3(b, a), lie.relative_so3(b[:3, :3], a[:3, :3])
+        out = {"se3": L(held["se3"]), "inv": L(held["inv"]),
+               "rel": L(held["rel"]), "rel_self": L(held["rel_self"]),
+               "relso3": L(held["relso3"]), "so3": L(lie.so3_from_se3(a)),
                "is_se3": bool(lie.is_se3(a)), "is_so3": bool(lie.is_so3(a[:3, :3]))}
         out["unchanged"] = same(a, a0) and same(b, b0)
         return out
@@ -463,7 +469,12 @@ def run_impl_(case):
         v = arr(case["v"], case)
         R = lie.so3_exp(v)
         back = lie.so3_log(R)
-        return {"exp": L(R), "log": L(back), "skew": L(lie.so3_log(R, return_skew=True)), "angle": lie.so3_log_angle(R)}
+        skew = lie.so3_log(R, return_skew=True)
+        # (held results vs. later calls on other data: no function may hand out a buffer it reuses)
+        other = lie.so3_exp(np.array([0.3, -0.2, 0.1]))
+        lie.so3_log(other)
+        lie.so3_log(other, return_skew=True)
+        return {"exp": L(R), "log": L(back), "skew": L(skew), "angle": lie.so3_log_angle(R)}
     if k == "log":
         R = arr(case["R"], case)
         v = lie.so3_log(R)
